@@ -1669,7 +1669,6 @@ def read_index(file, name, index, tindex, stop=b'\377' * 8,
 
         if tid <= ltid:
             logger.warning("%s time-stamp reduction at %s", name, pos)
-        ltid = tid
 
         if pos + (tl + 8) > file_size or status == 'c':
             # Hm, the data were truncated or the checkpoint flag wasn't
@@ -1712,6 +1711,10 @@ def read_index(file, name, index, tindex, stop=b'\377' * 8,
 
         if tid >= stop:
             break
+
+        # Only now is this a transaction of the database: an unfinished or
+        # cut-off tail must not be reported as the last transaction.
+        ltid = tid
 
         tpos = pos
         tend = tpos + tl
